@@ -22,12 +22,16 @@ type DfCase struct {
 	Dn       *progen.DisNestParams `json:"disnest,omitempty"`
 	Kp       *progen.KeyParams     `json:"keys,omitempty"`
 	Ff       *progen.FileParams    `json:"files,omitempty"`
+	Pf       *progen.PfDisParams   `json:"pfdis,omitempty"`
 	Schedule Schedule              `json:"schedule"`
 	Program  string                `json:"program_mro,omitempty"`
 }
 
 // Build constructs the program of the case (nil if inexpressible).
 func (c DfCase) Build() *progen.Program {
+	if c.Pf != nil {
+		return progen.PfDis(*c.Pf)
+	}
 	if c.Ff != nil {
 		return progen.FileFlow(*c.Ff)
 	}
@@ -41,6 +45,9 @@ func (c DfCase) Build() *progen.Program {
 }
 
 func (c DfCase) Name() string {
+	if c.Pf != nil {
+		return c.Pf.String()
+	}
 	if c.Ff != nil {
 		return c.Ff.String()
 	}
@@ -102,6 +109,15 @@ func workList(prop string, thorough bool) []workItem {
 		}
 		out = append(out, workItem{DfCase{Family: "nest", Kp: &d}, lvl})
 	}
+	// a call inside a mapped pipeline disabled per fork
+	for _, d := range progen.PfDisFamily(thorough) {
+		d := d
+		lvl := 1
+		if thorough {
+			lvl = 2
+		}
+		out = append(out, workItem{DfCase{Family: "pfdis", Pf: &d}, lvl})
+	}
 	return out
 }
 
@@ -130,6 +146,19 @@ func oracleFor(prop string, ref *progen.RefResult, res *Result) []string {
 
 // sigForCase refines sigFor with what is known about the program.
 func sigForCase(prop string, c DfCase, msg string) string {
+	if c.Pf != nil {
+		// programs of the per-fork-disable family that fail as a whole on
+		// the unchanged tree (see KNOWN_FINDINGS.txt); every other member
+		// of the family is judged by the generic signatures
+		switch {
+		case c.Pf.Cons == "map" && c.Pf.Dyn:
+			return prop + ":perfork-disable:map-over-output:run-time-flags"
+		case c.Pf.Cons == "map":
+			return prop + ":perfork-disable:map-over-output:literal-flags"
+		case c.Pf.Cons == "pass" && !c.Pf.Member && c.Pf.Dyn:
+			return prop + ":perfork-disable:returned-output:run-time-flags-next-to-a-literal-split"
+		}
+	}
 	if c.Kp != nil && literalNullJob(*c.Kp, msg) {
 		return prop + ":nest:literal-null-element-runs-a-job"
 	}
